@@ -123,7 +123,13 @@ func (p *resultsPrinter) PrintResults(matchingNodes *list.List) error {
 			return err
 		}
 
+		if err := verifPoint("print_node"); err != nil {
+			return err
+		}
 		if err := p.printNode(mappedDoc, destination); err != nil {
+			return err
+		}
+		if err := verifPoint("printed_node"); err != nil {
 			return err
 		}
 
